@@ -153,11 +153,9 @@ func runCase(c *Case, engine string) *runResult {
 // letTimePass runs garbage collections and gives finalizers (which release compiled code) time
 // to run.
 func letTimePass() {
-	for i := 0; i < 2; i++ {
-		runtime.GC()
-		runtime.Gosched()
-		time.Sleep(300 * time.Microsecond)
-	}
+	runtime.GC()
+	runtime.Gosched()
+	time.Sleep(400 * time.Microsecond)
 }
 
 func stepString(s Step) string {
@@ -262,7 +260,9 @@ func (r *runner) instantiate(s Step) string {
 			spec.Name, s.As, firstLine(err.Error()), want)
 	}
 	r.res.labels["inst:failed-at-"+want]++
-	r.failed = true // it got past linking: it may have left functions in shared tables
+	if p.inst.leftInTables() {
+		r.failed = true // functions of the failed instance live on in shared tables
+	}
 	return r.afterFailure()
 }
 
